@@ -58,6 +58,13 @@ class OpenNdim:
         self.explicit = explicit
 
 
+class LocalFunc:
+    """a function defined inside the function being interpreted"""
+
+    def __init__(self, node, env):
+        self.node, self.env = node, env
+
+
 class OpenRange:
     """range(x.ndim) for an array with opaque trailing axes: 0 .. explicit-1, then one item standing for every trailing axis number"""
 
@@ -205,6 +212,9 @@ class Interp:
             return
         if isinstance(st, ast.With):
             self.exec_block(st.body, env)
+            return
+        if isinstance(st, ast.FunctionDef) and not st.decorator_list:
+            env[st.name] = LocalFunc(st, env)  # a local helper: interpreted in place, reading the enclosing locals
             return
         self.unknown(f"statement {type(st).__name__}", st)
 
@@ -691,6 +701,30 @@ class Interp:
             return self.arr_method(fn[1], fn[2], args, kwargs, e)
         if isinstance(fn, tuple) and fn and fn[0] == "py-method":
             return self.py_method(fn[1], fn[2], args, kwargs, e)
+        if isinstance(fn, LocalFunc):
+            a = fn.node.args
+            if a.vararg or a.kwarg or a.kwonlyargs or a.posonlyargs:
+                self.unknown("local helper with */** parameters", e)
+            names = [x.arg for x in a.args]
+            defaults = dict(zip(names[len(names) - len(a.defaults):], a.defaults))
+            env2 = dict(fn.env)  # closure over the enclosing locals (read-only here)
+            rest = list(args)
+            for nm in names:
+                if rest:
+                    env2[nm] = rest.pop(0)
+                elif nm in kwargs:
+                    env2[nm] = kwargs.pop(nm)
+                elif nm in defaults:
+                    env2[nm] = self.const_default(defaults[nm])
+                else:
+                    raise AxTypeError(f"call of local helper {fn.node.name} misses argument `{nm}`", e)
+            if rest or kwargs:
+                raise AxTypeError(f"unexpected arguments in call of local helper {fn.node.name}", e)
+            try:
+                self.exec_block(fn.node.body, env2)
+            except ReturnSignal as r:
+                return r.value
+            return None
         if callable(fn):
             if fn in (all, any):
                 return fn(self.truth(x, e) for x in self.iterate(args[0], e))
